@@ -37,6 +37,7 @@ type FuncResult struct {
 // buildVC generates the obligations of one function under contract.
 func buildVC(prog *Program, fi *FuncInfo) (vc *VC, err error) {
 	vc = newVC(prog, fi)
+	patternHook = vc.patternOK
 	defer func() {
 		if r := recover(); r != nil {
 			if ve, ok := r.(vcError); ok {
@@ -50,7 +51,7 @@ func buildVC(prog *Program, fi *FuncInfo) (vc *VC, err error) {
 		return vc, fmt.Errorf("%s has no body in the repository", fi.Key)
 	}
 	sp := fi.Spec
-	f := &Frame{vc: vc, pk: fi.Pkg, fi: fi, top: true, spc: sp, bound: map[types.Object]Term{}, closures: map[types.Object]*ast.FuncLit{}}
+	f := &Frame{vc: vc, pk: fi.Pkg, fi: fi, top: true, spc: sp, split: fi.Split, bound: map[types.Object]Term{}, closures: map[types.Object]*ast.FuncLit{}}
 	st := &State{env: map[envKey]Term{}, heap: map[string]Term{}, base: &lazyBase{epoch: 0}, pc: True}
 	params := funcParams(fi.Pkg, fi.Decl)
 	f.results = funcResults(fi.Pkg, fi.Decl)
@@ -79,9 +80,7 @@ func buildVC(prog *Program, fi *FuncInfo) (vc *VC, err error) {
 		for _, fact := range f.typeFacts(st, st.env[envKey{p, ""}], p.Type()) {
 			vc.assume(st, fact)
 		}
-		if v := st.env[envKey{p, ""}]; v.Sort == SIface {
-			vc.assume(st, vc.isAllocOrNil(st, IRef(v)))
-		}
+
 	}
 	for _, r := range f.results {
 		if r.Name() != "" && r.Name() != "_" {
@@ -96,6 +95,7 @@ func buildVC(prog *Program, fi *FuncInfo) (vc *VC, err error) {
 			vc.assumeGlobal(rs[0])
 		}
 	}
+	vc.assume(st, app(SBool, ">=", vc.alloc(st), IntLit(1)))
 	f.old = st.clone()
 	if sp != nil {
 		sf := &Frame{vc: vc, pk: sp.Pkg, spec: true, old: f.old, specEnv: f.specEnv, tsub: f.tsub, bound: map[types.Object]Term{}}
